@@ -226,6 +226,21 @@ def check_family(tier, shard, nshards):
             if shared != [f"m{i}" for i in range(m)]:
                 fails.append((dict(circuit=label, display_type=dt, labels=labels), f"display changed the caller's mode_labels list to {shared}"))
                 shared = [f"m{i}" for i in range(m)]
+        # labels of the right length that are not strings (numbers, None, mixed, a tuple, long strings): drawn like any other labels
+        for dt in ("svg", "mpl"):
+            for what, ml in (("ints", list(range(m))), ("floats", [i + 0.5 for i in range(m)]), ("None entries", [None] * m), ("mixed", [("q%d" % i) if i % 2 else i for i in range(m)]),
+                             ("tuple of strings", tuple(f"m{i}" for i in range(m))), ("long strings", ["mode number %d of the register" % i for i in range(m)])):
+                if not m:
+                    continue
+                n += 1
+                try:
+                    r = Display(c, mode_labels=ml, display_type=dt)
+                    if dt == "mpl":
+                        plt.close(r[0])
+                except DisplayError:
+                    pass                # a documented refusal of such labels would be a display error
+                except Exception as e:  # noqa: BLE001
+                    fails.append((dict(circuit=label, display_type=dt, labels=what), f"mode labels given as {what} raised {type(e).__name__}: {e}"))
         if snapshot(c) != before:
             fails.append((dict(circuit=label), "display changed the circuit"))
         # wrong label counts / unknown type
